@@ -246,6 +246,14 @@ theorem restore_returns_checkpoint (es : List Ev) (s : St) (h : run init es = so
     restore s k = s.ckpt :=
   restore_of_inv s (run_inv es init s inv_init h) k
 
+/-- **Crash model B** — of the database file only what was written before its last fsync is sure to survive: whatever
+    mix `g` of written and synced page contents the crash leaves (`CrashImage`), an accepted trace is still restored to
+    the last checkpoint.  The rule therefore also demands the fsync of the file before the journal is marked done and
+    before a journal is started. -/
+theorem restore_returns_checkpoint_lossy (es : List Ev) (s : St) (h : run init es = some s) (hnf : s.mode ≠ .fresh)
+    (g : File) (hg : CrashImage s g) (k : Nat) : restoreFrom s g k = s.ckpt :=
+  restoreFrom_of_inv s (run_inv es init s inv_init h) hnf g hg k
+
 /-- every prefix of an accepted trace is accepted (so the theorem covers every crash point of the trace) -/
 theorem accepts_prefix (es : List Ev) (n : Nat) (h : accepts es = true) : accepts (es.take n) = true := by
   unfold accepts at *
@@ -266,12 +274,17 @@ theorem accepts_prefix (es : List Ev) (n : Nat) (h : accepts es = true) : accept
 
 /-- the rule is not vacuous: an eviction and a whole checkpoint, as the code issues them -/
 theorem accepts_witness :
-    accepts [.write 0 1, .start 1, .save 0, .jsync, .write 1 5, .write 2 6, .write 0 2, .done, .dropLog, .empty, .start 3,
-             .write 5 9, .save 1, .jsync, .write 1 7] = true ∧
-    (run init [.write 0 1, .start 1, .save 0, .jsync, .write 1 5, .write 2 6, .write 0 2]).map (fun s => restore s 0) = some [1] ∧
+    accepts [.write 0 1, .dsync, .start 1, .save 0, .jsync, .write 1 5, .write 2 6, .write 0 2, .dsync, .done, .dropLog, .empty,
+             .start 3, .write 5 9, .save 1, .jsync, .write 1 7] = true ∧
+    (run init [.write 0 1, .dsync, .start 1, .save 0, .jsync, .write 1 5, .write 2 6, .write 0 2]).map (fun s => restore s 0) = some [1] ∧
+    -- … and from the crash image that lost the unsynced writes of pages 0 and 2
+    (run init [.write 0 1, .dsync, .start 1, .save 0, .jsync, .write 1 5, .write 2 6, .write 0 2]).map
+        (fun s => restoreFrom s [1, 5] 0) = some [1] ∧
     -- overwriting a checkpointed page that was not saved is rejected
-    accepts [.write 0 1, .start 1, .write 0 2] = false ∧
+    accepts [.write 0 1, .dsync, .start 1, .write 0 2] = false ∧
     -- … as is dropping the log before the journal is marked done
-    accepts [.write 0 1, .start 1, .save 0, .jsync, .write 0 2, .dropLog] = false := by decide
+    accepts [.write 0 1, .dsync, .start 1, .save 0, .jsync, .write 0 2, .dropLog] = false ∧
+    -- … and marking the journal done while page writes are not synced
+    accepts [.write 0 1, .dsync, .start 1, .save 0, .jsync, .write 0 2, .done] = false := by decide
 
 end AxVerif.Journal
